@@ -14,10 +14,16 @@ import GoLucene.Proofs.Respace
                           the first rune is escaped unconditionally when `w` is a keyword (AND/OR/NOT/TO in any letter
                           case, as the lexer decides) or starts with `-`
     numericLooking s      strconv.Atoi succeeds, or strconv.ParseFloat succeeds with a FINITE value
-    escapable env w       w ≠ [] ∧ no byte `*` `?` `\` in w ∧ ¬ numericLooking w           (independent of env)
+    escapable env w       w ≠ [] ∧ no byte `*` `?` in w ∧ ¬ numericLooking w               (independent of env)
+                          — since fix F13 (parse.go `unescape`) a backslash in w is fine: it is written `\\` and read back
     escapableX env w      the same with ¬ numericLooking (escapeWord env w)  — the weakest possible condition
     Cls.escHyp k          `:` `\` and the four blanks are not letters/digits of k (Bool form: `escHypB`)
     plainField env f      f a non-empty word of ASCII letters, letters of k, not a keyword
+
+  The inverse pair (§4), for EVERY text w (wildcards, backslashes, digits, invalid UTF-8, … included):
+    unescape_escapeWord               env.cls.isAlnum 92 = false → unescape (escapeWord env w) = w
+    unescape_escapeWord_append        … → unescape (escapeWord env w ++ t) = w ++ unescape t
+    (byte-level companion `GoLucene.unescape_escapeBytes` and the other general facts about `unescape`: QuotedVerbatim §0)
 
   Main results, for `hk : env.cls.escHyp` and a plain field name `f`:
     escaped_tree / escaped_verbatim   escapable env w → parseQuery env (f ++ ":" ++ escapeWord env w) df = .ok (f = w)
@@ -31,8 +37,10 @@ import GoLucene.Proofs.Respace
 
   Where the clause is FALSE in the real code (recorded findings), general form and concrete input:
     K-escape-wild       escaped_wild_tree / escaped_wild_wrong / K_escape_wild            `a:b\*`  → LIKE pattern `b\*`
-    K-escape-backslash  escaped_backslash_tree / escaped_backslash_wrong / K_escape_backslash   `a:a\\b` → "ab"
     K-dangling-escape   dangling_escape_tree / K_dangling_escape                           `a:b\`   → "b", no error
+  FIXED by F13 (was finding K-escape-backslash: every backslash byte was removed, `a:a\\b` gave "ab"):
+    escaped_backslash_tree / escaped_backslash_iff / escaped_backslash_kept               `a:a\\b` → "a\b"
+    (a text with a backslash and no `*`/`?` is delivered verbatim — no further condition, it cannot look numeric)
   Necessity of the rest: `empty_word_err` (w = []), `numeric_is_number` (`a:15` is the integer 15), class-table
   counterexamples `kBslLetter`, `kSpaceLetter` (and `kColonLetter` of QuotedVerbatim), keywords without the leading
   backslash lex as operators.
@@ -75,7 +83,7 @@ def numericLooking (s : Bytes) : Bool :=
 
 /-- **escapable**: the side condition on the text (it does not depend on the class table) -/
 def escapableB (w : Bytes) : Bool :=
-  !w.isEmpty && !w.any (fun c => c == 42 || c == 63 || c == 92) && !numericLooking w
+  !w.isEmpty && !w.any (fun c => c == 42 || c == 63) && !numericLooking w
 
 def escapable (_env : Env) (w : Bytes) : Bool := escapableB w
 
@@ -221,22 +229,123 @@ theorem tokensOf_word (env : Env) (x : Cell) (xs : List Cell) (hD : Dec (x :: xs
     lexAll_eof env.cls [] [] (next_nil env.cls)]
   rfl
 
-/-! ## 4. bytes of the escaped text -/
+/-! ## 4. bytes of the escaped text: `unescape` inverts the escaping -/
 
 theorem bsl_raw : bsl.raw = [92] := rfl
 
-/-- removing the backslash bytes from the escaped text gives the backslash-free part of the original -/
-theorem filter_esc (k : Cls) : ∀ (cs : List Cell) (force : Bool),
-    (cellsBytes (escCells k force cs)).filter (· != 92) = (cellsBytes cs).filter (· != 92)
-  | [], _ => by simp [escCells]
-  | c :: cs, force => by
-    have ih := filter_esc k cs false
+/-- a cell as the decoder produces it, seen from the backslash: its bytes are not empty, and the byte `\` occurs only
+    as the one-byte cell `\` — never inside a multi-byte sequence, never as the byte of an invalid-sequence cell -/
+def bslOK (c : Cell) : Prop := c.raw ≠ [] ∧ (c = bsl ∨ (92 : UInt8) ∉ c.raw)
+
+theorem decode_raw_ne_nil : ∀ (n : Nat) (w : Bytes), w.length ≤ n → ∀ c ∈ decode w, c.raw ≠ [] := by
+  intro n
+  induction n with
+  | zero =>
+    intro w h c hc
+    have : w = [] := List.length_eq_zero_iff.mp (by omega)
+    subst this
+    rw [decode_nil] at hc
+    simp at hc
+  | succ n ih =>
+    intro w hl c hc
+    cases w with
+    | nil => rw [decode_nil] at hc; simp at hc
+    | cons b0 B =>
+      rw [decode_cons] at hc
+      rcases List.mem_cons.mp hc with rfl | hc
+      · simp
+      · exact ih (B.drop ((decode1 b0 B).2 - 1)) (by simp at hl ⊢; omega) c hc
+
+theorem mem_cellsBytes {c : Cell} {cs : List Cell} {x : UInt8} (hc : c ∈ cs) (hx : x ∈ c.raw) : x ∈ cellsBytes cs := by
+  unfold cellsBytes
+  exact List.mem_flatMap.mpr ⟨c, hc, hx⟩
+
+/-- every cell of a decoded text is `bslOK` (arbitrary bytes, invalid UTF-8 included): an ASCII byte always decodes
+    as a cell of its own (`decode_append_ascii`) -/
+theorem decode_bslOK : ∀ (n : Nat) (w : Bytes), w.length ≤ n → ∀ c ∈ decode w, bslOK c := by
+  intro n
+  induction n with
+  | zero =>
+    intro w h c hc
+    have : w = [] := List.length_eq_zero_iff.mp (by omega)
+    subst this
+    rw [decode_nil] at hc
+    simp at hc
+  | succ n ih =>
+    intro w hl c hc
+    refine ⟨decode_raw_ne_nil _ w (Nat.le_refl _) c hc, ?_⟩
+    rcases split_first 92 w with hno | ⟨a, t, rfl, ha⟩
+    · right
+      intro hm
+      have := mem_cellsBytes hc hm
+      rw [decode_lossless _ w (Nat.le_refl _)] at this
+      exact hno 92 this rfl
+    · rw [decode_append_ascii 92 (by decide) _ a t (Nat.lt_succ_self _)] at hc
+      rcases List.mem_append.mp hc with h1 | h1
+      · right
+        intro hm
+        have := mem_cellsBytes h1 hm
+        rw [decode_lossless _ a (Nat.le_refl _)] at this
+        exact ha 92 this rfl
+      · rcases List.mem_cons.mp h1 with rfl | h2
+        · left; rfl
+        · exact (ih t (by simp at hl; omega) c h2).2
+
+/-- **`unescape` inverts `escCells`**, cell level, with an arbitrary continuation `t`: whatever follows the escaped
+    text is unescaped on its own (the escaped text always ends between two escape sequences) -/
+theorem unescape_esc (k : Cls) (h92 : k.isAlnum 92 = false) : ∀ (cs : List Cell) (force : Bool) (t : Bytes),
+    (∀ c ∈ cs, bslOK c) → unescape (cellsBytes (escCells k force cs) ++ t) = cellsBytes cs ++ unescape t
+  | [], _, t, _ => by simp [escCells, cellsBytes]
+  | c :: cs, force, t, h => by
+    have ih := unescape_esc k h92 cs false t (fun x hx => h x (by simp [hx]))
+    obtain ⟨hne, hb⟩ := h c (by simp)
     rw [escCells]
     split
-    · rw [cellsBytes_cons, cellsBytes_cons, cellsBytes_cons, bsl_raw, List.filter_append, List.filter_append,
-        List.filter_append, ih]
-      rfl
-    · rw [cellsBytes_cons, cellsBytes_cons, List.filter_append, List.filter_append, ih]
+    · -- the cell is escaped: `\` then its bytes; only the first of them can be a backslash
+      rw [cellsBytes_cons, cellsBytes_cons, cellsBytes_cons, bsl_raw]
+      cases hr : c.raw with
+      | nil => exact absurd hr hne
+      | cons d ds =>
+        have hds : ∀ x ∈ ds, x ≠ 92 := by
+          rcases hb with rfl | hb
+          · rw [bsl_raw] at hr
+            cases hr
+            simp
+          · intro x hx e
+            subst e
+            exact hb (by rw [hr]; simp [hx])
+        simp only [List.cons_append, List.nil_append, List.append_assoc]
+        rw [unescape_bsl_cons, unescape_append_of_no_bsl ds _ hds, ih]
+    · -- the cell is a letter / digit / `_`: not the backslash, so no backslash byte in it
+      rename_i hc
+      have hc' : k.isAlnum c.r = true := by
+        cases hh : k.isAlnum c.r
+        · simp [hh] at hc
+        · rfl
+      have hraw : ∀ x ∈ c.raw, x ≠ 92 := by
+        rcases hb with rfl | hb
+        · have e92 : bsl.r = 92 := rfl
+          rw [e92, h92] at hc'
+          cases hc'
+        · intro x hx e
+          subst e
+          exact hb hx
+      rw [cellsBytes_cons, cellsBytes_cons, List.append_assoc, unescape_append_of_no_bsl c.raw _ hraw, ih,
+        List.append_assoc]
+
+/-- **`unescape` inverts `escapeWord`** — for EVERY text `w` (wildcards, backslashes, digits, keywords, invalid UTF-8
+    included) and whatever follows it, as soon as the backslash is not a letter / digit of the class table (otherwise
+    `escapeWord` would not escape it: `unescape_needs_h92`) -/
+theorem unescape_escapeWord_append (env : Env) (h92 : env.cls.isAlnum 92 = false) (w t : Bytes) :
+    unescape (escapeWord env w ++ t) = w ++ unescape t := by
+  unfold escapeWord
+  rw [unescape_esc env.cls h92 (decode w) (forceFirst w) t (decode_bslOK _ w (Nat.le_refl _)),
+    decode_lossless _ w (Nat.le_refl _)]
+
+theorem unescape_escapeWord (env : Env) (h92 : env.cls.isAlnum 92 = false) (w : Bytes) :
+    unescape (escapeWord env w) = w := by
+  have := unescape_escapeWord_append env h92 w []
+  rwa [List.append_nil, unescape_nil, List.append_nil] at this
 
 theorem any_esc (k : Cls) (p : UInt8 → Bool) (hp : p 92 = false) : ∀ (cs : List Cell) (force : Bool),
     (cellsBytes (escCells k force cs)).any p = (cellsBytes cs).any p
@@ -268,12 +377,6 @@ theorem escapeWord_same_or_bsl (env : Env) (w : Bytes) :
   rcases esc_same_or_bsl env.cls (decode w) (forceFirst w) with h | h
   · left; rw [h, decode_lossless _ w (Nat.le_refl _)]
   · right; exact h
-
-theorem escapeWord_filter (env : Env) (w : Bytes) (h92 : ∀ c ∈ w, c ≠ 92) :
-    (escapeWord env w).filter (· != 92) = w := by
-  unfold escapeWord
-  rw [filter_esc, decode_lossless _ w (Nat.le_refl _)]
-  exact List.filter_eq_self.mpr (fun c hc => by simpa using h92 c hc)
 
 theorem escapeWord_wild (env : Env) (w : Bytes) : containsWild (escapeWord env w) = containsWild w := by
   unfold escapeWord containsWild
@@ -521,22 +624,17 @@ theorem keywordOf_bsl (s : Bytes) (h : (92 : UInt8) ∈ s) : keywordOf s = none 
 
 /-! ## 6. the leaf -/
 
-/-- a word token that is not numeric-looking and has no wildcard byte: the string with every backslash removed -/
+/-- a word token that is not numeric-looking and has no wildcard byte: the string, unescaped -/
 theorem parseLiteral_plain (v : Bytes) (hnum : numericLooking v = false) (hwild : containsWild v = false) :
-    parseLiteral ⟨.literal, v⟩ = lit (.prim (.str (v.filter (· != 92)))) := by
+    parseLiteral ⟨.literal, v⟩ = lit (.prim (.str (unescape v))) := by
   simp only [numericLooking, Bool.or_eq_false_iff] at hnum
   obtain ⟨ha, hf⟩ := hnum
   have ha' : atoi v = none := by cases h : atoi v <;> simp [h] at ha ⊢
-  have hstrip : (if v.any (· == 92) = true then lit (.prim (.str (v.filter (· != 92)))) else lit (.prim (.str v))) =
-      lit (.prim (.str (v.filter (· != 92)))) := by
+  have hstrip : (if v.any (· == 92) = true then lit (.prim (.str (unescape v))) else lit (.prim (.str v))) =
+      lit (.prim (.str (unescape v))) := by
     by_cases h92 : v.any (· == 92) = true
     · rw [if_pos h92]
-    · have : v.filter (· != 92) = v := by
-        apply List.filter_eq_self.mpr
-        intro c hc
-        simp only [List.any_eq_true, beq_iff_eq, not_exists, not_and] at h92
-        simpa using h92 c hc
-      rw [if_neg h92, this]
+    · rw [if_neg h92, unescape_of_any_false v (Bool.eq_false_iff.mpr h92)]
   unfold parseLiteral
   cases hp : parseFloat v with
   | none =>
@@ -553,7 +651,7 @@ theorem parseLiteral_plain (v : Bytes) (hnum : numericLooking v = false) (hwild 
 
 /-- what `escapable` says -/
 theorem escapable_iff (env : Env) (w : Bytes) : escapable env w = true ↔
-    w ≠ [] ∧ (∀ c ∈ w, c ≠ 42 ∧ c ≠ 63 ∧ c ≠ 92) ∧ numericLooking w = false := by
+    w ≠ [] ∧ (∀ c ∈ w, c ≠ 42 ∧ c ≠ 63) ∧ numericLooking w = false := by
   unfold escapable escapableB
   simp only [Bool.and_eq_true, Bool.not_eq_true', List.isEmpty_eq_false_iff, List.any_eq_false, Bool.or_eq_true,
     beq_iff_eq, not_or, and_assoc]
@@ -587,15 +685,22 @@ theorem escapeWord_keyword (env : Env) (w : Bytes) : keywordOf (escapeWord env w
       apply keywordOf_bsl
       simp [escCells, cellsBytes_cons, bsl_raw]
 
-/-- the leaf of the escaped word is the string `w` -/
-theorem parseLiteral_escaped (env : Env) (w : Bytes) (hw : escapable env w = true) :
+/-- the leaf of an escaped word without `*`, `?` whose escaped spelling is not numeric-looking: the string `w` -/
+theorem parseLiteral_escapedX (env : Env) (h92 : env.cls.isAlnum 92 = false) (w : Bytes)
+    (hwild : containsWild w = false) (hnum : numericLooking (escapeWord env w) = false) :
     parseLiteral ⟨.literal, escapeWord env w⟩ = lit (.prim (.str w)) := by
-  obtain ⟨_, hb, hn⟩ := (escapable_iff env w).mp hw
-  have hwild : containsWild w = false := by
-    simp only [containsWild, List.any_eq_false, Bool.or_eq_true, beq_iff_eq, not_or]
-    exact fun c hc => ⟨(hb c hc).1, (hb c hc).2.1⟩
-  rw [parseLiteral_plain _ (escapeWord_numeric env w hn) (by rw [escapeWord_wild, hwild]),
-    escapeWord_filter env w (fun c hc => (hb c hc).2.2)]
+  rw [parseLiteral_plain _ hnum (by rw [escapeWord_wild, hwild]), unescape_escapeWord env h92 w]
+
+theorem escapable_noWild (env : Env) (w : Bytes) (hw : escapable env w = true) : containsWild w = false := by
+  obtain ⟨_, hb, _⟩ := (escapable_iff env w).mp hw
+  simp only [containsWild, List.any_eq_false, Bool.or_eq_true, beq_iff_eq, not_or]
+  exact hb
+
+/-- the leaf of the escaped word is the string `w` -/
+theorem parseLiteral_escaped (env : Env) (h92 : env.cls.isAlnum 92 = false) (w : Bytes) (hw : escapable env w = true) :
+    parseLiteral ⟨.literal, escapeWord env w⟩ = lit (.prim (.str w)) :=
+  parseLiteral_escapedX env h92 w (escapable_noWild env w hw)
+    (escapeWord_numeric env w ((escapable_iff env w).mp hw).2.2)
 
 /-! ## 7. (T) the tree -/
 
@@ -660,7 +765,7 @@ theorem escaped_tree (env : Env) (hk : env.cls.escHyp) (f : Bytes) (hne : f ≠ 
   unfold parseQuery parseTokens
   rw [b_colon, List.append_assoc, List.singleton_append,
     tokensOf_field_escaped env hk f hne hasc hlet hkw w hwne, parse_field_colon_value _ _ _ rfl rfl]
-  exact finalize_eq env df _ _ f w (parseLiteral_word f hne hasc) (parseLiteral_escaped env w hw)
+  exact finalize_eq env df _ _ f w (parseLiteral_word f hne hasc) (parseLiteral_escaped env hk.2.1 w hw)
 
 /-- **escaped_verbatim**: (T) in the literal form of the property — no default field, the tree written out -/
 theorem escaped_verbatim (env : Env) (hk : env.cls.escHyp) (f : Bytes) (hne : f ≠ [])
@@ -678,7 +783,7 @@ theorem escaped_default_tree (env : Env) (hk : env.cls.escHyp) (f : Bytes) (hne 
   have hwne : w ≠ [] := ((escapable_iff env w).mp hw).1
   unfold parseQuery parseTokens
   rw [tokensOf_escaped env hk w hwne, parse_single _ _ rfl]
-  exact finalize_leaf env f hne _ w (parseLiteral_escaped env w hw)
+  exact finalize_leaf env f hne _ w (parseLiteral_escaped env hk.2.1 w hw)
 
 /-! ## 8. end to end: tree, inline SQL constant, parameter list -/
 
@@ -770,46 +875,52 @@ theorem escaped_wild_tree (env : Env) (hk : env.cls.escHyp) (f : Bytes) (hne : f
   exact finalize_like env df _ _ f _ (parseLiteral_word f hne hasc)
     (parseLiteral_wild _ hnum (by rw [escapeWord_wild, hwild]))
 
-/-- **K-escape-backslash, general form.**  A text with a backslash (and no `*`, `?`): every backslash byte —
-    the escaping ones AND the escaped ones — is removed from the value. -/
-theorem escaped_backslash_tree (env : Env) (hk : env.cls.escHyp) (f : Bytes) (hne : f ≠ [])
-    (hasc : ∀ c ∈ f, isAsciiLetter c = true) (hlet : ∀ c ∈ f, env.cls.isLetter c.toNat = true)
-    (hkw : keywordOf f = none) (w : Bytes) (hwne : w ≠ []) (hwild : containsWild w = false)
-    (hnum : numericLooking (escapeWord env w) = false) (df : Bytes) :
-    parseQuery env (f ++ b ":" ++ escapeWord env w) df = .ok (tree f (w.filter (· != 92))) := by
-  unfold parseQuery parseTokens
-  rw [b_colon, List.append_assoc, List.singleton_append,
-    tokensOf_field_escaped env hk f hne hasc hlet hkw w hwne, parse_field_colon_value _ _ _ rfl rfl]
-  refine finalize_eq env df _ _ f _ (parseLiteral_word f hne hasc) ?_
-  rw [parseLiteral_plain _ hnum (by rw [escapeWord_wild, hwild])]
-  unfold escapeWord
-  rw [filter_esc, decode_lossless _ w (Nat.le_refl _)]
-
 theorem tree_inj (f w w' : Bytes) (h : tree f w = tree f w') : w = w' := by
   simpa [tree, lit, mkLeaf] using h
 
-/-- the clause fails for every text with a backslash -/
-theorem escaped_backslash_wrong (env : Env) (hk : env.cls.escHyp) (f : Bytes) (hne : f ≠ [])
+/-- the general positive form: no `*`, `?` in `w`, and the escaped spelling is not numeric-looking -/
+theorem escaped_plain_tree (env : Env) (hk : env.cls.escHyp) (f : Bytes) (hne : f ≠ [])
+    (hasc : ∀ c ∈ f, isAsciiLetter c = true) (hlet : ∀ c ∈ f, env.cls.isLetter c.toNat = true)
+    (hkw : keywordOf f = none) (w : Bytes) (hwne : w ≠ []) (hwild : containsWild w = false)
+    (hnum : numericLooking (escapeWord env w) = false) (df : Bytes) :
+    parseQuery env (f ++ b ":" ++ escapeWord env w) df = .ok (tree f w) := by
+  unfold parseQuery parseTokens
+  rw [b_colon, List.append_assoc, List.singleton_append,
+    tokensOf_field_escaped env hk f hne hasc hlet hkw w hwne, parse_field_colon_value _ _ _ rfl rfl]
+  exact finalize_eq env df _ _ f _ (parseLiteral_word f hne hasc) (parseLiteral_escapedX env hk.2.1 w hwild hnum)
+
+theorem escapeWord_bsl_mem (env : Env) (w : Bytes) (h92 : (92 : UInt8) ∈ w) : (92 : UInt8) ∈ escapeWord env w := by
+  rcases escapeWord_same_or_bsl env w with e | e
+  · rw [e]; exact h92
+  · exact e
+
+/-- **the escaped backslash is KEPT (fix F13; was finding K-escape-backslash), general form.**  A text with a backslash
+    and no `*`, `?`: the value is `w` itself, byte for byte — every backslash of `w` is written `\\` and read back as `\`.
+    No condition about numbers: a text with a backslash never looks numeric. -/
+theorem escaped_backslash_tree (env : Env) (hk : env.cls.escHyp) (f : Bytes) (hne : f ≠ [])
+    (hasc : ∀ c ∈ f, isAsciiLetter c = true) (hlet : ∀ c ∈ f, env.cls.isLetter c.toNat = true)
+    (hkw : keywordOf f = none) (w : Bytes) (h92 : (92 : UInt8) ∈ w) (hwild : containsWild w = false) (df : Bytes) :
+    parseQuery env (f ++ b ":" ++ escapeWord env w) df = .ok (tree f w) := by
+  have hwne : w ≠ [] := by intro e; subst e; simp at h92
+  exact escaped_plain_tree env hk f hne hasc hlet hkw w hwne hwild
+    (numericLooking_bsl _ (escapeWord_bsl_mem env w h92)) df
+
+/-- for a text with a backslash the clause holds exactly when there is no `*`, `?` in it (what is left of the
+    necessity results about the backslash: K-escape-wild) -/
+theorem escaped_backslash_iff (env : Env) (hk : env.cls.escHyp) (f : Bytes) (hne : f ≠ [])
     (hasc : ∀ c ∈ f, isAsciiLetter c = true) (hlet : ∀ c ∈ f, env.cls.isLetter c.toNat = true)
     (hkw : keywordOf f = none) (w : Bytes) (h92 : (92 : UInt8) ∈ w) (df : Bytes) :
-    parseQuery env (f ++ b ":" ++ escapeWord env w) df ≠ .ok (tree f w) := by
+    parseQuery env (f ++ b ":" ++ escapeWord env w) df = .ok (tree f w) ↔ containsWild w = false := by
   have hwne : w ≠ [] := by intro e; subst e; simp at h92
-  have h92e : (92 : UInt8) ∈ escapeWord env w := by
-    rcases escapeWord_same_or_bsl env w with e | e
-    · rw [e]; exact h92
-    · exact e
-  have hnum := numericLooking_bsl _ h92e
-  cases hwild : containsWild w with
-  | true =>
-    rw [escaped_wild_tree env hk f hne hasc hlet hkw w hwne hwild hnum df]
-    intro e
-    exact likeTree_ne_tree _ _ _ (Out.ok.inj e)
-  | false =>
-    rw [escaped_backslash_tree env hk f hne hasc hlet hkw w hwne hwild hnum df]
-    intro e
-    have := tree_inj _ _ _ (Out.ok.inj e)
-    have hm : (92 : UInt8) ∈ w.filter (· != 92) := by rw [this]; exact h92
-    simp at hm
+  constructor
+  · intro h
+    cases hwild : containsWild w with
+    | false => rfl
+    | true =>
+      rw [escaped_wild_tree env hk f hne hasc hlet hkw w hwne hwild
+        (numericLooking_bsl _ (escapeWord_bsl_mem env w h92)) df] at h
+      exact absurd (Out.ok.inj h) (likeTree_ne_tree _ _ _)
+  · exact fun hwild => escaped_backslash_tree env hk f hne hasc hlet hkw w h92 hwild df
 
 /-- the clause fails for every text with `*` or `?` that the escaping keeps non-numeric -/
 theorem escaped_wild_wrong (env : Env) (hk : env.cls.escHyp) (f : Bytes) (hne : f ≠ [])
@@ -864,11 +975,12 @@ theorem field_word_query (env : Env) (h58 : env.cls.isAlnum 58 = false)
   rfl
 
 /-- **K-dangling-escape, general form.**  The escaped word followed by one more backslash at the end of the input:
-    no error, the lone backslash is part of the word and is then dropped from the value — `f:w\` means `f:w`.
+    no error, the lone backslash is part of the word and is then dropped from the value — `f:w\` means `f:w`
+    (`w` may itself contain backslashes; `unescape` drops exactly the lone one at the very end).
     (No condition on numbers here: the backslash makes the token non-numeric, so `a:15\` is the STRING "15".) -/
 theorem dangling_escape_tree (env : Env) (hk : env.cls.escHyp) (f : Bytes) (hne : f ≠ [])
     (hasc : ∀ c ∈ f, isAsciiLetter c = true) (hlet : ∀ c ∈ f, env.cls.isLetter c.toNat = true)
-    (hkw : keywordOf f = none) (w : Bytes) (hwne : w ≠ []) (hb : ∀ c ∈ w, c ≠ 42 ∧ c ≠ 63 ∧ c ≠ 92) (df : Bytes) :
+    (hkw : keywordOf f = none) (w : Bytes) (hwne : w ≠ []) (hb : ∀ c ∈ w, c ≠ 42 ∧ c ≠ 63) (df : Bytes) :
     parseQuery env (f ++ b ":" ++ escapeWord env w ++ b "\\") df = .ok (tree f w) := by
   obtain ⟨h58, h92, hws⟩ := hk
   have hb92 : b "\\" = [92] := by decide
@@ -902,10 +1014,9 @@ theorem dangling_escape_tree (env : Env) (hk : env.cls.escHyp) (f : Bytes) (hne 
         simp [containsWild]
       rw [this, escapeWord_wild]
       simp only [containsWild, List.any_eq_false, Bool.or_eq_true, beq_iff_eq, not_or]
-      exact fun c hc => ⟨(hb c hc).1, (hb c hc).2.1⟩
-    rw [parseLiteral_plain _ (numericLooking_bsl _ hmem) hwild, List.filter_append,
-      escapeWord_filter env w (fun c hc => (hb c hc).2.2)]
-    simp
+      exact hb
+    rw [parseLiteral_plain _ (numericLooking_bsl _ hmem) hwild, unescape_escapeWord_append env h92 w [92],
+      unescape_bsl_single, List.append_nil]
 
 /-! ### ASCII texts: what `escapeWord` is, concretely -/
 
@@ -943,6 +1054,14 @@ example (env : Env) : escapable env (b "AND") = true := by esc_decide
 example (env : Env) : escapable env (b "-x") = true := by esc_decide
 example (env : Env) : escapable env (b "inf") = true := by esc_decide          -- non-finite floats are not numbers
 example (env : Env) : escapable env [0xFF, 0x00, 0xC3] = true := by esc_decide  -- invalid UTF-8 and NUL are fine for the tree
+-- backslashes in the text are fine since fix F13 (Windows paths, regex-looking text, a lone backslash, doubled ones)
+example (env : Env) : escapable env (b "C:\\dir") = true := by esc_decide
+example (env : Env) : escapable env (b "\\") = true := by esc_decide
+example (env : Env) : escapable env (b "a\\\\b\\") = true := by esc_decide
+example (env : Env) : escapable env (b "\\d+(\\.\\d+)") = true := by esc_decide
+-- `*` and `?` stay excluded (K-escape-wild)
+example (env : Env) : escapable env (b "a*") = false := by esc_decide
+example (env : Env) : escapable env (b "a?") = false := by esc_decide
 example (env : Env) : escapable env (b "15") = false := by esc_decide
 example (env : Env) : escapable env (b "1e5") = false := by esc_decide
 
@@ -959,6 +1078,15 @@ example : escapeWord asciiEnv (b "-x") = b "\\-x" := by
   rw [escapeWord_ascii _ _ (by decide)]; decide
 example : escapeWord asciiEnv (b "1.5") = b "1\\.5" := by
   rw [escapeWord_ascii _ _ (by decide)]; decide
+-- a backslash in the text is written as two
+example : escapeWord asciiEnv (b "C:\\dir") = b "C\\:\\\\dir" := by
+  rw [escapeWord_ascii _ _ (by decide)]; decide
+example : unescape (b "C\\:\\\\dir") = b "C:\\dir" := by decide
+example : unescape (escapeWord asciiEnv (b "C:\\dir")) = b "C:\\dir" := unescape_escapeWord asciiEnv (by decide) _
+-- … and `unescape` on texts that `escapeWord` never writes: a lone backslash at the end is dropped, `\x` is `x`
+example : unescape (b "ab\\") = b "ab" := by decide
+example : unescape (b "\\a\\b") = b "ab" := by decide
+example : unescape (b "a\\\\\\") = b "a\\" := by decide
 -- a non-ASCII letter needs no backslash; a non-ASCII non-letter (U+20AC) gets one
 example : escapeWord asciiEnv [0x63, 0x61, 0x66, 0xC3, 0xA9] = [0x63, 0x61, 0x66, 0xC3, 0xA9] := by
   have h1 : decode1 0xC3 [0xA9] = (233, 2) := by decide
@@ -990,6 +1118,11 @@ example (env : Env) (hk : env.cls.escHyp) (hl : ∀ c ∈ b "t", env.cls.isLette
 example (env : Env) (hk : env.cls.escHyp) (hl : ∀ c ∈ b "t", env.cls.isLetter c.toNat = true) :
     parseQuery env (b "t" ++ b ":" ++ escapeWord env (b "x-1.5")) [] = .ok (tree (b "t") (b "x-1.5")) :=
   escaped_tree env hk (b "t") (by decide) (by decide) hl (by decide) _ (by esc_decide) []
+-- a text with backslashes (fix F13): any class table satisfying the hypotheses
+example (env : Env) (hk : env.cls.escHyp) (hl : ∀ c ∈ b "path", env.cls.isLetter c.toNat = true) :
+    parseQuery env (b "path" ++ b ":" ++ escapeWord env (b "C:\\dir\\sub dir\\")) [] =
+      .ok (tree (b "path") (b "C:\\dir\\sub dir\\")) :=
+  escaped_tree env hk (b "path") (by decide) (by decide) hl (by decide) _ (by esc_decide) []
 -- invalid UTF-8 and NUL: the tree is still exact (only the inline SQL text needs valid UTF-8 without NUL)
 example (env : Env) (hk : env.cls.escHyp) (hl : ∀ c ∈ b "t", env.cls.isLetter c.toNat = true) :
     parseQuery env (b "t" ++ b ":" ++ escapeWord env [0xFF, 0x00, 0xC3]) [] = .ok (tree (b "t") [0xFF, 0x00, 0xC3]) :=
@@ -1025,14 +1158,15 @@ theorem K_escape_wild (env : Env) (hk : env.cls.escHyp) (hl : ∀ c ∈ b "ab", 
   intro e
   exact likeTree_ne_tree _ _ _ (Out.ok.inj e)
 
-/-- **K-escape-backslash**: `a:a\\b` — the escaped backslash is dropped from the value: `ab`, not `a\b`. -/
-theorem K_escape_backslash (env : Env) (hk : env.cls.escHyp) (hl : ∀ c ∈ b "ab", env.cls.isLetter c.toNat = true) :
-    parseQuery env (b "a:a\\\\b") [] = .ok (tree (b "a") (b "ab")) ∧
-    parseQuery env (b "a:a\\\\b") [] ≠ .ok (tree (b "a") (b "a\\b")) := by
+/-- **the escaped backslash is kept (fix F13)**: `a:a\\b` — the value is `a\b`.  Before the fix every backslash byte
+    was removed and the value was `ab` (finding K-escape-backslash, now closed). -/
+theorem escaped_backslash_kept (env : Env) (hk : env.cls.escHyp) (hl : ∀ c ∈ b "ab", env.cls.isLetter c.toNat = true) :
+    parseQuery env (b "a:a\\\\b") [] = .ok (tree (b "a") (b "a\\b")) ∧
+    parseQuery env (b "a:a\\\\b") [] ≠ .ok (tree (b "a") (b "ab")) := by
   obtain ⟨h58, h92, _⟩ := hk
   have a97 : env.cls.isAlnum 97 = true := alnum_of_letter _ 97 (hl 97 (by decide))
   have a98 : env.cls.isAlnum 98 = true := alnum_of_letter _ 98 (hl 98 (by decide))
-  have hq : parseQuery env (b "a:a\\\\b") [] = .ok (tree (b "a") (b "ab")) := by
+  have hq : parseQuery env (b "a:a\\\\b") [] = .ok (tree (b "a") (b "a\\b")) := by
     have e : b "a:a\\\\b" = b "a" ++ 58 :: cellsBytes (asciiCell 97 :: [asciiCell 92, asciiCell 92, asciiCell 98]) := by
       decide
     rw [e, field_word_query env h58 (b "a") (by decide) (by decide) (fun c hc => hl c ((by decide : ∀ c ∈ b "a", c ∈ b "ab") c hc)) (by decide)
@@ -1046,6 +1180,21 @@ theorem K_escape_backslash (env : Env) (hk : env.cls.escHyp) (hl : ∀ c ∈ b "
   intro e
   have := tree_inj _ _ _ (Out.ok.inj e)
   revert this; decide
+
+/-- the same through the general theorem: `a\b` is the text, `escapeWord` spells it `a\\b` -/
+theorem escaped_backslash_kept' (env : Env) (hk : env.cls.escHyp) (hl : ∀ c ∈ b "ab", env.cls.isLetter c.toNat = true) :
+    escapeWord env (b "a\\b") = b "a\\\\b" ∧
+    parseQuery env (b "a" ++ b ":" ++ escapeWord env (b "a\\b")) [] = .ok (tree (b "a") (b "a\\b")) := by
+  have a97 : env.cls.isAlnum 97 = true := alnum_of_letter _ 97 (hl 97 (by decide))
+  have a98 : env.cls.isAlnum 98 = true := alnum_of_letter _ 98 (hl 98 (by decide))
+  refine ⟨?_, escaped_backslash_tree env hk (b "a") (by decide) (by decide)
+    (fun c hc => hl c ((by decide : ∀ c ∈ b "a", c ∈ b "ab") c hc)) (by decide) _ (by decide) (by decide) []⟩
+  rw [escapeWord_ascii _ _ (by decide)]
+  have e : (b "a\\b").map asciiCell = [asciiCell 97, asciiCell 92, asciiCell 98] := by decide
+  have f0 : forceFirst (b "a\\b") = false := by decide
+  rw [e, f0]
+  simp [escCells, asciiCell, a97, a98, hk.2.1, cellsBytes, bsl]
+  decide
 
 /-- **K-dangling-escape**: `a:b\` (a lone backslash at the end of the input) — accepted, and the backslash is
     dropped: the same tree as `a:b`. -/
@@ -1217,10 +1366,10 @@ theorem parseLiteral_number (v : Bytes) (hnum : numericLooking v = true) :
 /-- the side condition in its weakest form: the test for numbers is made on the ESCAPED text (that is the text the
     parser sees), so `1.5`, `-5`, `+7` — numeric as they stand, but written `1\.5`, `\-5`, `\+7` — are fine -/
 def escapableX (env : Env) (w : Bytes) : Bool :=
-  !w.isEmpty && !w.any (fun c => c == 42 || c == 63 || c == 92) && !numericLooking (escapeWord env w)
+  !w.isEmpty && !w.any (fun c => c == 42 || c == 63) && !numericLooking (escapeWord env w)
 
 theorem escapableX_iff (env : Env) (w : Bytes) : escapableX env w = true ↔
-    w ≠ [] ∧ (∀ c ∈ w, c ≠ 42 ∧ c ≠ 63 ∧ c ≠ 92) ∧ numericLooking (escapeWord env w) = false := by
+    w ≠ [] ∧ (∀ c ∈ w, c ≠ 42 ∧ c ≠ 63) ∧ numericLooking (escapeWord env w) = false := by
   unfold escapableX
   simp only [Bool.and_eq_true, Bool.not_eq_true', List.isEmpty_eq_false_iff, List.any_eq_false, Bool.or_eq_true,
     beq_iff_eq, not_or, and_assoc]
@@ -1231,7 +1380,8 @@ theorem escapable_escapableX (env : Env) (w : Bytes) (h : escapable env w = true
 
 /-- **The clause holds EXACTLY on `escapableX`.**  For the query `f:` ++ escapeWord w (any text `w` at all, any
     default field): the result is the plain string value `w` if and only if `w` is non-empty, has none of the bytes
-    `*`, `?`, `\`, and its escaped spelling is not numeric-looking.  Every condition is necessary. -/
+    `*`, `?` (K-escape-wild), and its escaped spelling is not numeric-looking.  Every condition is necessary.
+    (Since fix F13 a backslash in `w` is no obstacle.) -/
 theorem escaped_tree_iff (env : Env) (hk : env.cls.escHyp) (f : Bytes) (hne : f ≠ [])
     (hasc : ∀ c ∈ f, isAsciiLetter c = true) (hlet : ∀ c ∈ f, env.cls.isLetter c.toNat = true)
     (hkw : keywordOf f = none) (w : Bytes) (df : Bytes) :
@@ -1269,24 +1419,13 @@ theorem escaped_tree_iff (env : Env) (hk : env.cls.escHyp) (f : Bytes) (hne : f 
           obtain ⟨c, hc, h1⟩ := hwild
           rcases h1 with h1 | h1
           · exact (h.2.1 c hc).1 h1
-          · exact (h.2.1 c hc).2.1 h1
+          · exact (h.2.1 c hc).2 h1
       | false =>
-        rw [escaped_backslash_tree env hk f hne hasc hlet hkw w hwne hwild hnum df]
+        rw [escaped_plain_tree env hk f hne hasc hlet hkw w hwne hwild hnum df]
         have hw' : ∀ c ∈ w, c ≠ 42 ∧ c ≠ 63 := by
           simp only [containsWild, List.any_eq_false, Bool.or_eq_true, beq_iff_eq, not_or] at hwild
           exact hwild
-        constructor
-        · intro e
-          have he := tree_inj _ _ _ (Out.ok.inj e)
-          refine ⟨hwne, fun c hc => ⟨(hw' c hc).1, (hw' c hc).2, ?_⟩, rfl⟩
-          intro e92
-          subst e92
-          have hm : (92 : UInt8) ∈ w.filter (· != 92) := by rw [he]; exact hc
-          simp at hm
-        · intro h
-          have : w.filter (· != 92) = w :=
-            List.filter_eq_self.mpr (fun c hc => by simpa using (h.2.1 c hc).2.2)
-          rw [this]
+        exact ⟨fun _ => ⟨hwne, hw', rfl⟩, fun _ => rfl⟩
 
 /-- (T) on the weakest side condition -/
 theorem escaped_treeX (env : Env) (hk : env.cls.escHyp) (f : Bytes) (hne : f ≠ [])
@@ -1354,6 +1493,14 @@ def kSpaceLetter : Cls := ⟨fun r => r == 32 || (97 ≤ r && r ≤ 122), fun _ 
 example : next kBslLetter [asciiCell 92, asciiCell 40] =
     .tok ⟨.literal, [92]⟩ [] [asciiCell 92] [asciiCell 40] := by
   simp [next, dropWs, isWs, isWild, isEsc, lexWord, kBslLetter, Cls.isAlnum, asciiCell, cellsBytes, keywordOf, upperAscii]
+-- … and `unescape (escapeWord w) = w` would be false: the backslash of `a\b` would not be doubled, and be lost
+theorem unescape_needs_h92 :
+    escapeWord ⟨kBslLetter, fun _ => true⟩ (b "a\\b") = b "a\\b" ∧
+    unescape (escapeWord ⟨kBslLetter, fun _ => true⟩ (b "a\\b")) = b "ab" := by
+  have e : escapeWord ⟨kBslLetter, fun _ => true⟩ (b "a\\b") = b "a\\b" := by
+    rw [escapeWord_ascii _ _ (by decide)]; decide
+  rw [e]
+  exact ⟨rfl, by decide⟩
 -- `escHyp`, whitespace: if the space were a letter, `escapeWord` would not escape it, and a leading space would be
 -- skipped by the lexer before the word starts: the text ` a` would denote `a`
 example : escCells kSpaceLetter false [asciiCell 32, asciiCell 97] = [asciiCell 32, asciiCell 97] := by decide
@@ -1365,7 +1512,7 @@ example : next kSpaceLetter [asciiCell 32, asciiCell 97] =
 example : keywordOf (b "AND") = some .tand := by decide
 example : keywordOf (b "to") = some .tto := by decide
 example : keywordOf (b "\\AND") = none := by decide
--- no `*`, `?`, `\` in `w`: `K_escape_wild`, `K_escape_backslash` (general: `escaped_wild_wrong`, `escaped_backslash_wrong`)
+-- no `*`, `?` in `w`: `K_escape_wild` (general: `escaped_wild_wrong`; with a backslash in `w`: `escaped_backslash_iff`)
 -- not numeric-looking: `numeric_is_number`;  non-empty: `empty_word_err`
 
 end Necessity
@@ -1385,6 +1532,18 @@ example : escapableX asciiEnv (b "1.5") = true := by
   unfold escapableX
   rw [e]
   decide
+-- the headline statement on a concrete instance with backslashes inside `w` (fix F13): the Windows path `C:\dir`,
+-- written `path:C\:\\dir`, is the string `C:\dir` in the tree, in the inline SQL constant and in the parameter list
+example : escapeWord asciiEnv (b "C:\\dir") = b "C\\:\\\\dir" ∧
+    parseQuery asciiEnv (b "path:C\\:\\\\dir") [] = .ok (tree (b "path") (b "C:\\dir")) ∧
+    (∃ t, render pgFns (tree (b "path") (b "C:\\dir")) = .ok t ∧
+      Sql.parseSql t = some (.cmp .eq (.col (b "path")) (.str (b "C:\\dir")))) ∧
+    renderParam pgFns (tree (b "path") (b "C:\\dir")) = .ok (b "\"path\" = ?", [.str (b "C:\\dir")]) := by
+  have e : escapeWord asciiEnv (b "C:\\dir") = b "C\\:\\\\dir" := by
+    rw [escapeWord_ascii _ _ (by decide)]; decide
+  have h := escaped_verbatim_main asciiEnv (by decide) (b "path") (by decide) (b "C:\\dir") (by esc_decide)
+  rw [e] at h
+  exact ⟨e, h.1, (h.2.1 (validUtf8_ascii _ (by decide)) (by decide)).2, h.2.2⟩
 -- the headline statement on a concrete instance
 example : parseQuery asciiEnv (b "title" ++ b ":" ++ escapeWord asciiEnv (b "it's (not) a \"test\": x/y")) [] =
     .ok (tree (b "title") (b "it's (not) a \"test\": x/y")) :=
@@ -1406,10 +1565,13 @@ open GoLucene.EscapedVerbatim
 #print axioms escaped_wild_tree
 #print axioms escaped_wild_wrong
 #print axioms escaped_backslash_tree
-#print axioms escaped_backslash_wrong
+#print axioms escaped_backslash_iff
+#print axioms unescape_escapeWord
+#print axioms unescape_escapeWord_append
 #print axioms dangling_escape_tree
 #print axioms K_escape_wild
-#print axioms K_escape_backslash
+#print axioms escaped_backslash_kept
+#print axioms escaped_backslash_kept'
 #print axioms K_dangling_escape
 #print axioms empty_word_err
 #print axioms numeric_is_number
